@@ -190,6 +190,7 @@ var atoms = [][]string{
 	{"/"},
 	{"{x}"},
 	{"k", "%6B", "%6b"},
+	{"{y}"},
 }
 
 type caseC struct {
@@ -245,8 +246,14 @@ func specFor(a, b string) string {
 			sb.WriteString(",")
 		}
 		params := ""
-		if strings.Contains(p, "{x}") {
-			params = `"parameters":[{"name":"x","in":"path","required":true,"schema":{"type":"string"}}],`
+		var ps []string
+		for _, n := range []string{"x", "y"} {
+			if strings.Contains(p, "{"+n+"}") {
+				ps = append(ps, `{"name":"`+n+`","in":"path","required":true,"schema":{"type":"string"}}`)
+			}
+		}
+		if len(ps) > 0 {
+			params = `"parameters":[` + strings.Join(ps, ",") + `],`
 		}
 		fmt.Fprintf(&sb, `%q:{"get":{%s"operationId":"op%d","responses":{"200":{"description":"ok"}}}}`, p, params, i)
 	}
@@ -307,17 +314,24 @@ func partC(r *vf.Run, maxAtoms int) {
 	var seq []int
 	var rec func(n int)
 	valid := func(seq []int) bool {
-		// at most one {x}; no "//"; no trailing or leading slash atom (path key gets its own "/" prefix)
-		nx := 0
+		// at most one {x} and one {y}, {y} only after {x} and never adjacent to it (two parameters
+		// need text between them); no "//"; no trailing or leading slash atom (the key gets its own "/")
+		nx, ny := 0, 0
 		for i, a := range seq {
 			if a == 6 {
 				nx++
+			}
+			if a == 8 {
+				ny++
+				if nx == 0 || seq[i-1] == 6 {
+					return false
+				}
 			}
 			if a == 5 && (i == 0 || i == len(seq)-1 || seq[i-1] == 5) {
 				return false
 			}
 		}
-		return nx <= 1
+		return nx <= 1 && ny <= 1
 	}
 	rec = func(n int) {
 		if len(seq) > 0 && valid(seq) {
@@ -399,7 +413,7 @@ func oneAtomApart(a, b string) bool {
 	d := 0
 	for i := range fa {
 		if fa[i] != fb[i] {
-			if fa[i] == "6" || fb[i] == "6" || fa[i] == "5" || fb[i] == "5" {
+			if fa[i] == "6" || fb[i] == "6" || fa[i] == "5" || fb[i] == "5" || fa[i] == "8" || fb[i] == "8" {
 				return false
 			}
 			d++
